@@ -393,7 +393,8 @@ def mk_end_state(name, icode_twin=None, params=None, mutant=None):
             a.y = a.y + t
         mol = M.run(txt, transform=tr, params=params)
         p = mol.version.parameters
-        for cname in mol.conformation_names:
+        # the reported average too: a mean of values that each obey a sign rule / bound obeys it as well
+        for cname in list(mol.conformation_names) + ['AVR']:
             conf = mol.conformations[cname]
             # 'the two Coulomb determinants of an acid-base pair of reported protein side chains are equal and opposite'
             side = [g for g in conf.groups if g.titratable and g.atom.type == 'atom' and g.residue_type not in ('N+', 'C-')]
@@ -406,8 +407,10 @@ def mk_end_state(name, icode_twin=None, params=None, mutant=None):
                         ctx.claim('acid-base-pair-equal-and-opposite', eq(sum(va, 0) + sum(vb, 0), 0),
                                   detail='conformation %s: %s <- %s %r, %s <- %s %r' % (cname, ga.label, gb.label, va, gb.label, ga.label, vb))
             charge_of = {}
-            for g in conf.groups:
-                charge_of.setdefault(g.label, set()).add(g.charge)
+            # the average lists only the groups that are reported; partners (ions, ...) are looked up in the real conformations
+            for c2 in [conf] + [mol.conformations[n] for n in mol.conformation_names]:
+                for g in c2.groups:
+                    charge_of.setdefault(g.label, set()).add(g.charge)
             for g in conf.groups:
                 if not g.titratable:
                     continue
@@ -482,7 +485,7 @@ def obligations(tier):
                               bounds='two-MODEL file from micro-structure %s: residue %d is an alanine in MODEL 1; Nmin/Nmax lowered to 6/30; symbolic grid shift t in [0,2.509]' % (name, res),
                               claim_doc='as O13, in particular: within each conformation the two Coulomb determinants of an acid-base side-chain pair are equal and opposite (after averaging too)',
                               max_paths=5000, wall_s=170))
-    fx = [('pair_ASP_ARG', None), ('pair_ASP_ARG', (30, 29)), ('pair_GLU_ARG_TYR', None), ('pair_LYS_ASP', None), ('complex_MTX', None)]
+    fx = [('pair_ASP_ARG', None), ('pair_ASP_ARG', (30, 29)), ('pair_GLU_ARG_TYR', None), ('pair_LYS_ASP', None), ('complex_MTX', None), ('complex_MTX2', None), ('pair_LYS_ASP_2CL', None)]
     if tier == 'thorough':
         fx += [('pep8', None), ('pep8', (30, 29)), ('pair_ASP_ASP', None), ('nterm_ASP_LYS', None), ('lig_MTX', None), ('pair_CYS_CYS_bridge', None)]
     from .micro import BURIED
